@@ -31,6 +31,10 @@ def gen(seed, tier):
                 l["custom_derived"] = True
         if any(l.get("custom_derived") for l in pl["levels"]):
             pl["entry"] = "tree"  # hms() has no config_class_to_deme_class parameter
+    # the same custom config class mapped to ANOTHER deme class than an earlier tree of this process used
+    if "levels" in pl and any(l["engine"] == "custom" for l in pl["levels"]) and seed % 3 == 0:
+        pl["custom_variant"] = "B"
+        pl["preceded_by"] = [{"custom_variant": "A", "faults": {}}]
     return pl
 
 
@@ -48,6 +52,9 @@ class C07Monitor(Monitor):
             if self.w.plan["levels"][level].get("custom_derived"):
                 self.w.probe("c07-derived-custom-config-judged")
                 return "CustomEADeme"
+            if self.w.plan["levels"][level]["engine"] == "custom" and self.w.plan.get("custom_variant") == "B":
+                self.w.probe("c07-custom-class-remapped-judged")
+                return "CustomDemeB"
             return CLS[self.w.plan["levels"][level]["engine"]]
         return ["EADeme", "CMADeme"][level]
 
@@ -81,7 +88,7 @@ class C07Monitor(Monitor):
                     self.violate("level-attribute", {"deme": d._id, "level": d._level, "in_level": li})
                 if cls != self._expected_cls(li):
                     self.violate("wrong-engine-class", {"deme": d._id, "class": cls, "expected": self._expected_cls(li)})
-                if cls == "CustomDeme":
+                if cls in ("CustomDeme", "CustomDemeB"):
                     w.probe("c07-custom-deme-seen")
                 if not (0 <= d._started_at <= tree.metaepoch_count):
                     self.violate("started-at-range", {"deme": d._id, "started_at": d._started_at,
